@@ -34,14 +34,13 @@ theorem CountsH.alloc {w : World} {E : List Id} (h : CountsH w E) (o : Obj) (ab 
   have hE : E.count w.next = 0 := Nat.eq_zero_of_add_eq_zero_left (h.fresh w.next (Nat.le_refl _))
   have hR : refs w w.next = 0 := Nat.eq_zero_of_add_eq_zero_right (h.fresh w.next (Nat.le_refl _))
   refine ⟨?_, ?_, ?_, ?_, ?_⟩
-  · intro x hx
+  · intro x
     rw [hr, List.count_append, count_replicate_self]
     by_cases hxn : w.next = x
     · subst hxn
       simp [Heap.set]; omega
     · have hxn' : ¬ x = w.next := fun e => hxn e.symm
-      have hx' : (w.heap x).boxLive = true := by simpa [Heap.set, hxn'] using hx
-      have := h.le x hx'
+      have := h.le x
       simp [Heap.set, hxn', hxn]; omega
   · intro x hx
     have hx' : w.next + 1 ≤ x := hx
@@ -98,9 +97,8 @@ theorem CountsH.updFields_le {w : World} {E : List Id} (t : Id) (F : Obj → Obj
     · subst hx; simp [hrc, hbl]
     · simp [upd, Heap.set, hx]
   refine ⟨?_, ?_, h.frames, h.pcb, h.mfresh⟩
-  · intro x hx
-    rw [(hheap x).2] at hx
-    have h1 := h.le x hx
+  · intro x
+    have h1 := h.le x
     have h2 := e x
     rw [(hheap x).1]
     simp only [List.count_append] at h1 ⊢
@@ -115,7 +113,7 @@ theorem CountsH.updFields_le {w : World} {E : List Id} (t : Id) (F : Obj → Obj
 /-- Replacing the buffer by identities that are allocated. -/
 theorem CountsH.setPc {w : World} {E : List Id} (h : CountsH w E) (l : List Id) (hl : ∀ x ∈ l, x < w.next) :
     CountsH { w with pc := l } E :=
-  h.same (fun _ => rfl) (fun _ => rfl) (fun _ hx => hx) rfl (fun _ hf => hf) (fun x hx => Or.inr (hl x hx)) h.mfresh
+  h.same (fun _ => rfl) (fun _ => rfl) rfl (fun _ hf => hf) (fun x hx => Or.inr (hl x hx)) h.mfresh
 
 /-- A change of one object that raises its count by `n`: `n` more pointers in flight. -/
 theorem CountsH.incrRcF {w : World} {E : List Id} (h : CountsH w E) (y : Id) (n : Nat) (F : Obj → Obj) (hy : y < w.next)
@@ -123,14 +121,14 @@ theorem CountsH.incrRcF {w : World} {E : List Id} (h : CountsH w E) (y : Id) (n 
     (hbl : (F (w.heap y)).boxLive = (w.heap y).boxLive) :
     CountsH (w.upd y F) (List.replicate n y ++ E) := by
   refine ⟨?_, ?_, h.frames, h.pcb, h.mfresh⟩
-  · intro x hx
+  · intro x
     rw [refs_upd_same w y _ x hF, List.count_append, count_replicate_self]
     by_cases hxy : y = x
     · subst hxy
-      have := h.le y (by rw [← hbl]; simpa using hx)
+      have := h.le y
       simp [hrc]; omega
     · have hxy' : ¬ x = y := fun e => hxy e.symm
-      have := h.le x (by simpa [upd, Heap.set, hxy'] using hx)
+      have := h.le x
       simp [upd, Heap.set, hxy', hxy]; omega
   · intro x hx
     have hx' : w.next ≤ x := hx
@@ -139,21 +137,25 @@ theorem CountsH.incrRcF {w : World} {E : List Id} (h : CountsH w E) (y : Id) (n 
     rw [refs_upd_same w y _ x hF, List.count_append, count_replicate_self]
     simp [hxy]; omega
 
-theorem CountsH.freeAll (c : Cfg) : ∀ (l : List Id) {w : World}, CountsH w [] →
+theorem CountsH.freeAll (c : Cfg) : ∀ (l : List Id) {w : World}, CountsH w [] → (∀ x ∈ l, (w.heap x).rc = 0) →
     CountsH (l.foldl (fun w x => (if c.weak then w.dropMetadata x else w).freeBox x) w) []
-  | [], _, h => h
-  | x :: l, w, h => by
+  | [], _, h, _ => h
+  | x :: l, w, h, hz => by
     simp only [List.foldl_cons]
+    have hx0 := hz x (List.mem_cons_self ..)
     apply CountsH.freeAll c l
-    split
-    · exact (h.dropMetadata x).freeBox x
-    · exact h.freeBox x
+    · split
+      · exact (h.dropMetadata x).freeBox_of_rc x (by simpa using hx0)
+      · exact h.freeBox_of_rc x hx0
+    · intro y hy
+      have hy0 := hz y (List.mem_cons_of_mem _ hy)
+      split <;> (rw [freeBox_rc]; split <;> simp [hy0])
 
 theorem CountsH.updAll_same {E : List Id} (F : Obj → Obj) (hF : ∀ o, fieldsOf (F o) = fieldsOf o) (hrc : ∀ o, (F o).rc = o.rc)
     (hbl : ∀ o, (F o).boxLive = o.boxLive) : ∀ (l : List Id) {w : World}, CountsH w E → CountsH (w.updAll l F) E
   | [], _, h => h
   | x :: l, w, h => by
-    have h1 : CountsH (w.upd x F) E := h.upd_same x F (hF _) (hrc _) (fun hb => by rw [← hbl]; exact hb)
+    have h1 : CountsH (w.upd x F) E := h.upd_same x F (hF _) (hrc _)
     exact CountsH.updAll_same F hF hrc hbl l h1
 
 theorem firstSome_count : ∀ (l : List (Option Id)) (y : Id) (s : List (Option Id)), firstSome l = some (y, s) →
